@@ -10,7 +10,9 @@ META = dict(
     level_text=('Theorems in coq/C15/Props.v, for all byte strings: escape output has no < > quote chars, every & opens one of '
                 'five entities, unescape(escape s)=s, escape commutes with concatenation, a failing sink gets exactly the prefix that fits and failure is '
                 'reported (return value / stream state) iff the output did not fit, also through the template filters; a filter on an already failed '
-                'stream writes nothing; a value streamed '
+                'stream writes nothing; for sinks whose failure is not permanent (arbitrary accept-function of call index, bytes so far, request): success reported -> '
+                'the sink holds the whole text, failure -> exactly the writes before the first refused one, nothing after it (escape, urlencode, and through the '
+                'template filters for values of any length); a value streamed '
                 'in any pieces through the 128-byte filter buffer of the template filters = the filter of the whole value; a rendered '
                 'attribute/text slot cannot be terminated by its value; urlencode alphabet, urldecode(urlencode s)=s, exact behaviour of '
                 'urldecode on every malformed escape, re-encoding stability; base64url alphabet, decode(encode s)=s, exact sizes, '
@@ -272,6 +274,35 @@ def gen_cases(ctx):
             L = len(py_encode(op, s))
             room = max(0, rng.choice([0, 1, 2, 3, 5, L - 6, L - 2, L - 1, L, L + 1, 127, 128, 129, 130, 255, 256, 257, rng.randrange(0, L + 2)]))
             cases.append('pcsf %s %d %s %s' % (op, room, ','.join(map(str, cuts)), hexs(s)))
+    # sinks whose failure is not permanent (all-or-nothing with a byte budget, one refused call, alternating, one partial call)
+    def spec_for(ncalls, nbytes):
+        k = rng.randrange(0, 5)
+        if k == 0:
+            return 'A%d' % rng.choice([0, 1, 2, 3, 4, 5, max(0, nbytes - 1), nbytes, rng.randrange(0, nbytes + 2)])
+        if k == 1:
+            return 'K%d' % rng.randrange(0, ncalls + 2)
+        if k == 2:
+            return 'T'
+        if k == 3:
+            return 'P%d.%d' % (rng.randrange(0, ncalls + 1), rng.randrange(0, 5))
+        return 'B%d' % rng.randrange(0, nbytes + 2)
+    for budget in range(0, 9):
+        cases.append('escg A%d %s' % (budget, hexs(b'ab<c')))
+        cases.append('uencg A%d %s' % (budget, hexs(b'a b')))
+    for _ in range(ctx.scale(4000, 60000)):
+        ln = rng.randrange(0, 24)
+        s = bytes(rng.choice(SPECIAL + b'ab \x00\xff') for _ in range(ln))
+        for op, g in (('esc', 'escg'), ('uenc', 'uencg')):
+            rq = sink_requests(op, s)
+            cases.append('%s %s %s' % (g, spec_for(len(rq), sum(map(len, rq))), hexs(s)))
+    for op in ('esc', 'uenc', 'benc'):
+        for _ in range(ctx.scale(700, 10000)):
+            k = rng.randrange(0, 4)
+            cuts = [rng.choice(edge + [3, 17, 64]) for _ in range(k)] or [0]
+            tot = min(sum(cuts) + rng.choice([0, 1, 5, 127, 128, 129]), 600)
+            s = bytes(rng.choice(SPECIAL + b'abcdefgh \x00\xff%+') for _ in range(tot))
+            rq = sink_requests(op, s)
+            cases.append('pcsg %s %s %s %s' % (op, spec_for(len(rq), sum(map(len, rq))), ','.join(map(str, cuts)), hexs(s)))
     for op in ('esc', 'uenc', 'benc'):
         for v in (b'', b'a', b'<a href="x">', b'a b&c'):
             cases.append('pcsb %s %s' % (op, hexs(v)))
@@ -341,6 +372,34 @@ def py_encode(op, s):
     if op == 'uenc':
         return urllib.parse.quote_from_bytes(s, safe='').encode()
     return base64.urlsafe_b64encode(s).rstrip(b'=')
+
+
+def sink_requests(op, s):
+    """the write requests the CORRECT code makes for input s, in order (one sputn per entity / one sputc per byte; urlencode:
+    one sputc per output byte, lower-case hex as the code writes it; base64: one write per 4-symbol block)"""
+    if op == 'esc':
+        return [ESC.get(ch, bytes([ch])) for ch in s]
+    if op == 'uenc':
+        return [bytes([b]) for b in b''.join(bytes([ch]) if ch in UNRES else b'%%%02x' % ch for ch in s)]
+    full = py_encode('benc', s)
+    return [full[i:i + 4] for i in range(0, len(full), 4)]
+
+
+def sink_simulate(spec, reqs):
+    """what a sink of the harness (B room / A budget / K k / T / P k.m) holds when the requests are made until the first
+    one is refused - the behaviour the property demands: stop at the first failure, report it"""
+    mode, rest = spec[0], spec[1:]
+    a = int(rest.split('.')[0]) if rest else 0
+    m = int(rest.split('.')[1]) if '.' in rest else 0
+    data = b''
+    for idx, q in enumerate(reqs):
+        n = len(q)
+        k = {'B': min(n, max(0, a - len(data))), 'A': n if len(data) + n <= a else 0, 'K': 0 if idx == a else n,
+             'T': 0 if idx & 1 else n, 'P': min(n, m) if idx == a else n}[mode]
+        data += q[:k]
+        if k < n:
+            return data, False
+    return data, True
 
 
 class _HtmlEvents(html.parser.HTMLParser):
@@ -493,6 +552,33 @@ def oracle(case, out):
             return ('escape-stream-not-prefix', 'failing sink received something that is not a prefix of the escaped text')
         if ok == '1' and len(full) > room:
             return ('escape-stream-false-success', 'sink too small but success reported')
+    elif op in ('escg', 'uencg'):
+        name = 'escape' if op == 'escg' else 'urlencode'
+        s, r, ok = unhex(c[2]), unhex(o[1]), o[2] == '1'
+        reqs = sink_requests('esc' if op == 'escg' else 'uenc', s)
+        full = b''.join(reqs)
+        if ok and r != full:
+            return (name + '-success-reported-but-text-lost', 'the call reported success but the sink %s holds %d of %d bytes (a refused write was ignored)' % (c[1], len(r), len(full)))
+        exp, exp_ok = sink_simulate(c[1], reqs)
+        if not ok and (not full.startswith(r) or r != exp):
+            return (name + '-continues-after-refused-write', 'failure reported, but the sink %s does not hold exactly the writes before the first refused one' % c[1])
+        if ok != exp_ok:
+            return (name + '-refused-write-not-reported', 'the sink %s refused a write but the call reported success' % c[1])
+    elif op == 'pcsg':
+        s, r = unhex(c[4]), unhex(o[1])
+        reqs = sink_requests(c[1], s)
+        full = b''.join(reqs)
+        st, rel = o[2] == 'st=1', o[3] == 'rel=1'
+        exp, exp_ok = sink_simulate(c[2], reqs)
+        if st and r != full:
+            return (c[1] + '-filter-success-reported-but-text-lost', 'the stream is good after the filter but the sink %s holds %d of %d bytes' % (c[2], len(r), len(full)))
+        if st != exp_ok:
+            return (c[1] + '-filter-refused-write-not-reported', 'the sink %s refused a write but the stream is good after the filter' % c[2])
+        if not st and r != exp:
+            # (a regression of /repo 4925ae6 shows here: the put area delivered a second time after a failed flush)
+            return (c[1] + '-filter-continues-after-refused-write', 'failure reported, but the sink %s does not hold exactly the writes before the first refused one (%d bytes instead of %d)' % (c[2], len(r), len(exp)))
+        if rel != exp_ok:
+            return (c[1] + '-filterbuf-release-status', 'release() returned %s for the sink %s' % (o[3], c[2]))
     elif op == 'uencs':
         s, r, ok = unhex(c[2]), unhex(o[1]), o[2]
         room = int(c[1])
@@ -571,7 +657,7 @@ def nontrivial(case, out):
     if h == '-':
         return False
     s = unhex(h)
-    if c[0] == 'uencs':
+    if c[0] in ('uencs', 'escg', 'uencg', 'pcsg'):
         return True
     if c[0] in ('esc', 'escs', 'form', 'formfull'):
         return any(ch in SPECIAL for ch in s)
@@ -591,6 +677,10 @@ def classify(case, out):
         return c[0] + ':' + c[1]
     if c[0] == 'pcsf':
         return 'pcsf:' + c[1] + (':sink-failed' if out.endswith('rel=0') else '')
+    if c[0] in ('escg', 'uencg'):
+        return c[0] + ':' + c[1][0] + (':refused' if out.endswith(' 0') else '')
+    if c[0] == 'pcsg':
+        return 'pcsg:' + c[1] + ':' + c[2][0] + (':refused' if 'st=0' in out else '')
     if c[0] in ('pcsb', 'strf'):
         return c[0] + ':' + c[1]
     b = 'len0' if n == 0 else 'len1-2' if n <= 2 else 'len3' if n == 3 else 'len4-64' if n <= 64 else 'len65-1024' if n <= 1024 else 'len>1024'
@@ -635,6 +725,7 @@ def run(ctx):
                             'through urldecode. Exhaustive: every %XY (65536) through urldecode; all strings of length<=5 over that 8-byte set. Every last symbol x every middle symbol of 3-symbol base64 tails. Random (seeded): 3-byte blocks, independently encoded decoder inputs, malformed decoder inputs, '
                             'markup-dense strings with a failing sink (escape and urlencode streambuf overloads), filters over values streamed in pieces around the 128-byte buffer '
                             'with and without a sink that fails after room bytes (rooms around the output length / 128 / inside entities), filters on an already failed stream, '
+                            'escape / urlencode / the filters into sinks with non-permanent failure (all-or-nothing with a byte budget, k-th call refused once, alternating, one partial call), '
                             '19 widget slots x 4 render modes x payloads (slot content + slot context and complete HTML), strings up to 64 KiB. A case is non-trivial when the input is non-empty and '
                             'contains at least one byte the codec must transform (markup char / non-unreserved byte / % or +; any byte for base64); '
                             'distinct = distinct case lines.')
